@@ -10,9 +10,9 @@ C08 race soak (a SEARCH and a sanity check of the phase map — never the proof)
      single-playlist clauses, per-requester monotonicity, torn / changing bodies),
                (b) the Go race detector's reports, canonicalised to the pair of (function, source line),
                (c) the diff of the writer-side observations against the sequential Lean model (drv_muxer);
-  4. prints  EXTRA-STAT {json}  /  EXTRA-FAIL <text>  for ./check; reports that match an entry of
-     checks/C08.json "pending_known" are printed as EXTRA-KNOWN (not a failure) until the integrator has moved
-     them to known_findings.json.
+  4. prints  EXTRA-STAT {json}  /  EXTRA-FAIL <text>  for ./check. Every race report is a failure; the tags
+     F5- / F14a- / F14b- only name the (repaired) races should one come back. (An optional "pending_known" list in
+     checks/C08.json would turn matching lines into EXTRA-KNOWN; it is empty / absent.)
 """
 import sys, os, re, json, subprocess, shutil, tempfile, hashlib, collections, concurrent.futures, time
 
